@@ -68,6 +68,10 @@ def gateways_for(transport, backend="thread", gid="g"):
         return ["popen//python=/sim/bare-python3 -S -E//id=m", f"socket//installvia=m//id={gid}{em}"], 1
     if transport == "ssh-config":
         return [f"ssh=-p 2222 user@simhost//ssh_config=/sim/ssh_config//python=/opt/py/bin/python3//id={gid}{em}"], 0
+    if transport == "vagrant":
+        return [f"vagrant_ssh=default//id={gid}{em}"], 0
+    if transport == "vagrant-config":
+        return [f"vagrant_ssh=box1//ssh_config=/sim/ssh_config//python=/opt/py/bin/python3//id={gid}{em}"], 0
     raise ValueError(transport)
 
 
